@@ -612,6 +612,9 @@ func callSSA(i *interpreter, caller *frame, callpos token.Pos, fn *ssa.Function,
 				i.stubHit[name+" (direct encoding)"]++
 				return so(fr, args)
 			}
+		} else if so := symOnlyStr[name]; so != nil && len(args) > 1 && hasSymBytes(args[1]) {
+			i.stubHit[name+" (symbolic NFA)"]++
+			return so(fr, args)
 		} else if ext := i.shared.lookupExternal(fn, name); ext != nil {
 			i.stubHit[name]++
 			return ext(fr, args)
